@@ -328,9 +328,9 @@ package gnet
 //@   ensures c.loop == el && c.fd == old(c.fd) && elwf(el)
 //@   ensures old(c.opened && reg(el.connections, c.fd) != nil) ==> !c.opened && c.phase == 2 && nclose[c] == 1 && owner[c.fd] == nil && reg(el.connections, c.fd) != c && CZ(c)
 //@   ensures !old(c.opened && reg(el.connections, c.fd) != nil) ==> rerr == nil
-//@   ensures old(c.opened && reg(el.connections, c.fd) != nil) ==> (cerr[c] <==> err != nil)
-//@   ensures old(shutreq) ==> shutreq
-//@   ensures rerr == errorx.ErrEngineShutdown ==> shutreq
+//@   ensures [C18] old(c.opened && reg(el.connections, c.fd) != nil) ==> (cerr[c] <==> err != nil)
+//@   ensures [C18] old(shutreq) ==> shutreq
+//@   ensures [C18] rerr == errorx.ErrEngineShutdown ==> shutreq
 //@   loop 1:
 //@     invariant el == el$0 && c == c$0 && c.loop == el && c.fd == old(c.fd) && elwf(el) && c.opened && c.phase == 1 && nclose[c] == 1 &&
 //@          owner[c.fd] != nil && reg(el.connections, c.fd) == nil && iwf(c) && elastic.bwf(c.outboundBuffer) && addrok(c) && ringsep(c) && !c.isDatagram &&
@@ -345,9 +345,9 @@ package gnet
 //@   ensures action == Close && old(c.opened && reg(el.connections, c.fd) != nil) ==> !c.opened && c.phase == 2 && nclose[c] == 1 && owner[c.fd] == nil && reg(el.connections, c.fd) != c && CZ(c)
 //@   ensures action != Close && action != Shutdown ==> err == nil
 //@   ensures action != Close && c.opened ==> (old(CI(c)) ==> CI(c))
-//@   ensures old(shutreq) ==> shutreq
-//@   ensures err == errorx.ErrEngineShutdown ==> action == Shutdown || shutreq
-//@   ensures action == Close && old(c.opened && reg(el.connections, c.fd) != nil) ==> !cerr[c]
+//@   ensures [C18] old(shutreq) ==> shutreq
+//@   ensures [C18] err == errorx.ErrEngineShutdown ==> action == Shutdown || shutreq
+//@   ensures [C18] action == Close && old(c.opened && reg(el.connections, c.fd) != nil) ==> !cerr[c]
 //
 // wake: OnTraffic for an open, registered connection; nothing for a stale one.
 //@ func (el *eventloop) wake(c *conn) (err error)
@@ -372,9 +372,9 @@ package gnet
 //@   ensures !c.opened ==> CZ(c)
 //@   ensures !old(c.opened) ==> err == nil
 //@   ensures old(c.opened) && !c.opened ==> c.phase == 2 && nclose[c] == 1 && owner[c.fd] == nil && reg(el.connections, c.fd) != c
-//@   ensures old(c.opened) && hardfail[c.fd] && !old(hardfail[c.fd]) ==> !c.opened && nclose[c] == 1 && cerr[c]
-//@   ensures old(shutreq) ==> shutreq
-//@   ensures err == errorx.ErrEngineShutdown ==> shutreq
+//@   ensures [C18] old(c.opened) && hardfail[c.fd] && !old(hardfail[c.fd]) ==> !c.opened && nclose[c] == 1 && cerr[c]
+//@   ensures [C18] old(shutreq) ==> shutreq
+//@   ensures [C18] err == errorx.ErrEngineShutdown ==> shutreq
 //@   loop 1:
 //@     invariant (hardfail[c.fd] <==> old(hardfail[c.fd])) && (old(shutreq) ==> shutreq) &&
 //@          el == el$0 && c == c$0 && c.loop == el && c.fd == old(c.fd) && elwf(el) && c.opened && CI(c) && ocnt(c) > 0 && sent >= 0 &&
@@ -397,8 +397,8 @@ package gnet
 //@   ensures !c.opened ==> CZ(c)
 //@   ensures old(c.opened) && !c.opened ==> err != nil && c.phase == 2 && nclose[c] == 1 && owner[c.fd] == nil && reg(c.loop.connections, c.fd) != c
 //@   ensures !old(c.opened) ==> err != nil && n == 0
-//@   ensures old(c.opened) && hardfail[c.fd] && !old(hardfail[c.fd]) ==> !c.opened && nclose[c] == 1 && cerr[c]
-//@   ensures old(shutreq) ==> shutreq
+//@   ensures [C18] old(c.opened) && hardfail[c.fd] && !old(hardfail[c.fd]) ==> !c.opened && nclose[c] == 1 && cerr[c]
+//@   ensures [C18] old(shutreq) ==> shutreq
 //@   loop 1:
 //@     invariant (old(shutreq) ==> shutreq) && (hardfail[c.fd] <==> old(hardfail[c.fd])) &&
 //@          c == c$0 && c.loop == old(c.loop) && c.fd == old(c.fd) && elwf(c.loop) && c.opened && CI(c) && ocnt(c) == 0 && c.cons == old(c.cons) &&
@@ -507,8 +507,8 @@ package gnet
 //@   ensures c.opened ==> old(c.opened) && CI(c) && (err == nil ==> len(c.buffer) == 0)
 //@   ensures !c.opened ==> CZ(c)
 //@   ensures !old(c.opened) ==> err == nil
-//@   ensures old(shutreq) ==> shutreq
-//@   ensures err == errorx.ErrEngineShutdown ==> shutreq
+//@   ensures [C18] old(shutreq) ==> shutreq
+//@   ensures [C18] err == errorx.ErrEngineShutdown ==> shutreq
 //
 // Flush: sends what ReadFrom queued; afterwards pending output is under write interest again (level-triggered mode).
 //@ func (c *conn) Flush() (err error)
@@ -550,9 +550,9 @@ package gnet
 //@   ensures c.opened ==> old(c.opened) && CI(c) && (err == nil ==> len(c.buffer) == 0)
 //@   ensures !c.opened ==> CZ(c)
 //@   ensures !old(c.opened) ==> err == nil
-//@   ensures old(c.opened) && kpos[c.fd] == old(kpos[c.fd]) && ((hardfail[c.fd] && !old(hardfail[c.fd])) || (eofseen[c.fd] && !old(eofseen[c.fd]))) ==> !c.opened && nclose[c] == 1 && cerr[c]
-//@   ensures old(shutreq) ==> shutreq
-//@   ensures err == errorx.ErrEngineShutdown ==> shutreq
+//@   ensures [C18] old(c.opened) && kpos[c.fd] == old(kpos[c.fd]) && ((hardfail[c.fd] && !old(hardfail[c.fd])) || (eofseen[c.fd] && !old(eofseen[c.fd]))) ==> !c.opened && nclose[c] == 1 && cerr[c]
+//@   ensures [C18] old(shutreq) ==> shutreq
+//@   ensures [C18] err == errorx.ErrEngineShutdown ==> shutreq
 //@   loop 1:
 //@     invariant el == el$0 && c == c$0 && c.loop == el && c.fd == old(c.fd) && elwf(el) && c.opened && CI(c) && len(c.buffer) == 0 && recv >= 0 && (old(shutreq) ==> shutreq) && kpos[c.fd] == old(kpos[c.fd]) + recv &&
 //@          (recv == 0 ==> (hardfail[c.fd] <==> old(hardfail[c.fd])) && (eofseen[c.fd] <==> old(eofseen[c.fd])))
